@@ -1042,6 +1042,7 @@ func (fr *frame) enterLoop(li *loopInfo, h *ssa.BasicBlock, pre *state, enter st
 			c.assume(implies(hc, f))
 		}
 	}
+	vc.lemmaInstances(pre, hst, hc)
 	for _, cl := range li.decs {
 		tr := fr.loopTrans(li, hst, nil)
 		li.decAt = nil
@@ -1159,6 +1160,70 @@ func (fr *frame) iterKey(r *ssa.Range) string {
 		c.heapSorts[k] = fmt.Sprintf("(Array %s Bool)", ks)
 	}
 	return k
+}
+
+// lemmaInstances: after a havoc (a call or a loop head) the two-state lemmas of the layer's property are available
+// between the state before the havoc and the state after it, and between the function's entry state and the state
+// after it. (A lemma is proved once, for arbitrary pairs of heaps: obligation lemma/<label>.)
+func (vc *funcVC) lemmaInstances(pre, post *state, guard string) {
+	if vc.layer == "" {
+		return
+	}
+	c := vc.c
+	for _, lm := range vc.w.db.Lemmas {
+		if !lm.TwoState || !strings.HasPrefix(lm.Label, vc.layer+".") {
+			continue
+		}
+		reads := vc.w.lemmaReads(lm)
+		for i, old := range []*state{pre, vc.entry} {
+			if i == 1 && old == pre {
+				continue
+			}
+			differs := false
+			for k := range reads {
+				if _, inOld := old.heap[k]; !inOld {
+					if _, inPost := post.heap[k]; !inPost {
+						continue // both states hold the entry version
+					}
+				}
+				if !vc.ensureKey(k) {
+					continue
+				}
+				if c.heapGet(old, k) != c.heapGet(post, k) {
+					differs = true
+					break
+				}
+			}
+			if !differs {
+				continue
+			}
+			key := "lemma|" + lm.Label + "|" + fmt.Sprint(i) + "|" + guard
+			for _, k := range sortedKeys(reads) {
+				key += "|" + old.heap[k] + ">" + post.heap[k]
+			}
+			if c.unfolded[key] {
+				continue
+			}
+			c.unfolded[key] = true
+			tr := &trans{c: c, pkg: lm.Pkg, vars: map[string]tvar{}, cur: post, old: old, depth: 0}
+			f, ok := func() (f string, ok bool) {
+				defer func() {
+					if r := recover(); r != nil {
+						if _, isTE := r.(transError); isTE {
+							ok = false
+							return
+						}
+						panic(r)
+					}
+				}()
+				return tr.formula(lm.Expr), true
+			}()
+			if ok {
+				c.assume(implies(guard, f))
+				c.usedAxioms["lemma "+lm.Label+" (proved as obligation lemma/"+lm.Label+")"] = true
+			}
+		}
+	}
 }
 
 // havoc replaces what ms may write by fresh versions in st (pre is the state before), adding frame axioms.
